@@ -24,8 +24,7 @@ META = {
 PARSE_AT_LEAST = 3
 
 
-def r51(facts, res):
-    R = 'R5.1'
+def r51(facts, res, R='R5.1'):
     sites = []
     for b in facts.lib_bodies(['lrpar']):
         if not b.path.startswith('lrpar::cpctplus::') or b.from_expansion:
